@@ -586,8 +586,17 @@ class FileSystemSink(DataSink):
         if os.path.isfile(file_path):
             raise DataSourceError("Attempted to overwrite file (!) at: {}".format(file_path))
 
-        with io.open(file_path, mode='w', encoding=encoding) as f:
-            fp_serialize(stix_obj, f, pretty=pretty, encoding=encoding, ensure_ascii=False)
+        try:
+            with io.open(file_path, mode='w', encoding=encoding) as f:
+                fp_serialize(stix_obj, f, pretty=pretty, encoding=encoding, ensure_ascii=False)
+        except Exception:
+            # Don't leave a partially written file behind: the source could
+            # not read it, and that would make every later query fail.
+            try:
+                os.remove(file_path)
+            except OSError:
+                pass
+            raise
 
     def add(self, stix_data=None, version=None, pretty=True):
         """Add STIX objects to file directory.
